@@ -21,3 +21,50 @@ def load_or_skip(run, cfg, witness_rules):
 
 def configs(run):
     return build.QUICK_CONFIGS if run.tier == 'quick' else build.THOROUGH_CONFIGS
+
+
+def single_assignment_locals(f):
+    """did -> initialiser term of the locals of f that are initialised at their declaration and never assigned again: such a
+    local is just a name for its initialiser (a hoisted sub-expression), whatever it is called"""
+    from engine import sym
+    init, dirty = {}, set()
+    for e in f.events():
+        if e['ev'] == 'decl':
+            for v in e['vars']:
+                if isinstance(v.get('init'), dict):
+                    init[v['did']] = v['init']
+        elif e['ev'] in ('assign', 'incdec'):
+            l = sym.strip_casts(e.get('lhs') or {})
+            if isinstance(l, dict) and l.get('k') == 'local':
+                dirty.add(l.get('did'))
+    for e in f.events():
+        t = e.get('e') if e['ev'] == 'expr' else None
+        # passed by non-const reference / address taken: treat as possibly modified
+        from engine.facts import subterms
+        for root in [e.get('e'), e.get('rhs')] + [v.get('init') for v in e.get('vars', [])]:
+            if not isinstance(root, dict):
+                continue
+            for st in subterms(root):
+                if isinstance(st, dict) and st.get('k') == 'un' and st.get('op') == '&':
+                    o = sym.strip_casts(st.get('e'))
+                    if isinstance(o, dict) and o.get('k') == 'local':
+                        dirty.add(o.get('did'))
+    return {d: t for d, t in init.items() if d not in dirty}
+
+
+def expand_locals(t, vals, depth=0):
+    """replace single-assignment locals in a term by their initialisers (recursively)"""
+    from engine import sym
+    if not isinstance(t, dict) or depth > 8:
+        return t
+    if t.get('k') == 'local' and t.get('did') in vals:
+        return expand_locals(vals[t['did']], vals, depth + 1)
+    out = {}
+    for kk, vv in t.items():
+        if isinstance(vv, dict):
+            out[kk] = expand_locals(vv, vals, depth)
+        elif isinstance(vv, list):
+            out[kk] = [expand_locals(x, vals, depth) if isinstance(x, dict) else x for x in vv]
+        else:
+            out[kk] = vv
+    return out
